@@ -421,6 +421,12 @@ func (rn *runner) c16Oracle(c *Case, ex *c16Expect, o *Obs) (string, string) {
 		}
 		want := append([]int{}, ex.FailLines...)
 		last := len(c.Lines)
+		for i, l := range c.Lines {
+			if l == "stop" || l == "skip" {
+				last = i + 1 // nothing behind it is consumed
+				break
+			}
+		}
 		if len(want) > 0 && !c.Coe {
 			want = want[:1]
 			last = want[0]
